@@ -3,5 +3,5 @@ CONSTANTS
   MaxN = 4
   G = 3
   AllowEmpty = TRUE
-INVARIANTS ScopeIsRun WellDefined InRefines ContainsRefines LocRefines TopDeviation LocTopDeviation LocWeakest ContainsTopWeak
+INVARIANTS ScopeIsRun WellDefined InRefines ContainsRefines LocRefines
 CHECK_DEADLOCK FALSE
